@@ -59,6 +59,19 @@ func (b *builder) gap(layout int) {
 	case 6: // raw string literal spanning lines
 		b.add("id(`raw")
 		b.add("string`)")
+	case 8: // a block comment behind the previous statement, the last thing on its line
+		if n := len(b.lines); n > 0 && !strings.HasSuffix(b.lines[n-1], "{") {
+			b.lines[n-1] += " /* trailing */"
+		} else {
+			b.add("id(8) /* trailing */")
+		}
+	case 9: // a block comment that starts behind the previous statement and ends on the next line
+		if n := len(b.lines); n > 0 && !strings.HasSuffix(b.lines[n-1], "{") {
+			b.lines[n-1] += " /* trailing,"
+		} else {
+			b.add("id(9) /* trailing,")
+		}
+		b.add("   continued */")
 	case 7: // empty block comment lines and a comment holding what looks like a terminator of a string
 		b.add("/*")
 		b.add("")
@@ -122,7 +135,7 @@ func callStmt(form int, callee string) string {
 
 const nForms = 8
 
-const nLayouts = 8
+const nLayouts = 10
 
 type pos struct {
 	file string
@@ -297,7 +310,7 @@ func run16(c *fw.Ctx) {
 	if c.Thorough() {
 		maxD = 6
 	}
-	c.Family("uniform-forms", fmt.Sprintf("d <= %d x %d failures x 8 forms x 8 layouts (blank, line and block comments incl. multi-line ones, raw strings over lines) x 3 positions x 4 styles", maxD, len(failures)))
+	c.Family("uniform-forms", fmt.Sprintf("d <= %d x %d failures x 8 forms x 10 layouts (blank, line and block comments incl. multi-line and trailing ones, raw strings over lines) x 3 positions x 4 styles", maxD, len(failures)))
 	for d := 0; d <= maxD; d++ {
 		for fi := range failures {
 			for form := 0; form < nForms; form++ {
